@@ -146,3 +146,28 @@ def spread_cases(rng, tier):
         bp = rng.choice([None, 0, 1, D, loguniform(rng, 1, 127)])
         cases.append(spread_case(bp, ms, loguniform(rng, 0, 127), loguniform(rng, 0, 127), loguniform(rng, 0, 127), od, rd, "random"))
     return cases
+
+
+# ---------------- assert_sent_native_token_balance ----------------
+def sent_native_cases(rng, tier):
+    """declared native amount vs attached coins, over denoms that differ only by case, by a suffix / prefix,
+    or not at all; the matching coin first, last, absent, duplicated, zero"""
+    from fw import hexs
+    denoms = [b"uaura", b"UAURA", b"Uaura", b"uaur", b"uaura2", b"aura", b"uusd", b"ibc/27394FB0", b"ibc/27394fb0", b"u", b"denom0"]
+    cases = []
+    n = 400 if tier == "quick" else 4000
+    for _ in range(n):
+        native = rng.random() < 0.85
+        d = rng.choice(denoms)
+        amt = rng.choice([0, 1, 5, 1000, 2 ** 64, 2 ** 64 + 5, 2 ** 127])
+        k = rng.randrange(0, 4)
+        funds = []
+        for _ in range(k):
+            fd = rng.choice([d, d, rng.choice(denoms), d.swapcase(), d + b"x", d[:-1] if len(d) > 1 else d])
+            fa = rng.choice([amt, amt, 0, amt + 1, max(0, amt - 1), amt % (2 ** 64), 7])
+            funds.append((fd, fa))
+        line = "sent_native %s %s %d %d %s" % ("n" if native else "t", hexs(d), amt, len(funds),
+                                                " ".join("%s %d" % (hexs(fd), fa) for fd, fa in funds))
+        cases.append(Case("sent_native", [native, d, amt, [(fd, fa) for fd, fa in funds]], [(line.strip(), "unit")],
+                          "directed-matrix"))
+    return cases
